@@ -20,6 +20,7 @@ import (
 	"go/token"
 	"os"
 	"path/filepath"
+	"regexp"
 	"sort"
 	"strconv"
 	"strings"
@@ -1420,7 +1421,8 @@ func hydratePhases(repo string) (string, error) {
 		"def hydratePhases : List (String × List (String × String)) :=\n  [" + strings.Join(out, ",\n   ") + "]\n", nil
 }
 
-func genCode(repo string) (string, error) {
+func genCode(repo string) (map[string]string, error) {
+	files := map[string]string{}
 	var b strings.Builder
 	b.WriteString("import PgsVerif.Model.FilePath\nimport PgsVerif.Model.Context\nimport PgsVerif.Model.Params\nimport PgsVerif.Model.GoNames\nimport PgsVerif.Generated.Tables\n")
 	b.WriteString("/- GENERATED by harness/cmd/factgen (codegen.go) from the current source of protoc-gen-star. Do not edit:\n")
@@ -1464,30 +1466,50 @@ func genCode(repo string) (string, error) {
 	b.WriteString("def mkPrefixContext (parent : Pgs.C18.Ctx) (d : List Pgs.Bytes) : Pgs.C18.Ctx := .pre parent d\n")
 	b.WriteString("def mkDirContext (pc : Pgs.C18.Ctx) (p : Pgs.Bytes) : Pgs.C18.Ctx := match pc with | .pre parent d => .dir parent p d | c => c\n")
 	b.WriteString("def debuggerPush (d : List Pgs.Bytes) (pfx : Pgs.Bytes) : List Pgs.Bytes := d ++ [pfx]\n\n")
-	// a function that no longer fits the subset is left out (with a note): the tie theorem that
-	// mentions it then no longer compiles, and only the properties resting on it are reported
+	b.WriteString("end Pgs.GenCode\n")
+	files["CodePrelude.lean"] = b.String()
+	// one file per translated function: a function that no longer fits the subset - or whose translation
+	// no longer type-checks - takes down only the tie theorems that import it, and with them only the
+	// properties that rest on it
+	header := func(deps []string) string {
+		h := "import PgsVerif.Generated.CodePrelude\n"
+		for _, d := range deps {
+			h += "import PgsVerif.Generated.Code_" + d + "\n"
+		}
+		return h + "/- GENERATED by harness/cmd/factgen (codegen.go) from the current source of protoc-gen-star. Do not edit. -/\n" +
+			"set_option linter.unusedVariables false\nnamespace Pgs.GenCode\n\n"
+	}
+	specs := codeSpecs()
 	var notes []string
-	for _, s := range codeSpecs() {
+	for _, s := range specs {
 		t, err := translate(repo, s)
 		if err != nil {
 			notes = append(notes, err.Error())
-			b.WriteString("-- UNTRANSLATABLE " + strings.ReplaceAll(err.Error(), "\n", " ") + "\n\n")
 			continue
 		}
-		b.WriteString(t + "\n")
+		var deps []string
+		for _, o := range specs {
+			if o.lean != s.lean && regexp.MustCompile(`\b`+regexp.QuoteMeta(o.lean)+`\b`).MatchString(t[strings.Index(t, ":=")+2:]) {
+				deps = append(deps, o.lean)
+			}
+		}
+		sort.Strings(deps)
+		files["Code_"+s.lean+".lean"] = header(deps) + t + "\nend Pgs.GenCode\n"
 	}
-	for _, g := range []func(string) (string, error){nameHelpers, acceptOrders, typePredicates, hydratePhases} {
-		t, err := g(repo)
+	tables := []struct {
+		name string
+		gen  func(string) (string, error)
+	}{{"nameHelpers", nameHelpers}, {"acceptOrders", acceptOrders}, {"typePredicates", typePredicates}, {"hydratePhases", hydratePhases}}
+	for _, g := range tables {
+		t, err := g.gen(repo)
 		if err != nil {
 			notes = append(notes, err.Error())
-			b.WriteString("-- UNTRANSLATABLE " + strings.ReplaceAll(err.Error(), "\n", " ") + "\n\n")
 			continue
 		}
-		b.WriteString(t + "\n")
+		files["Code_"+g.name+".lean"] = header(nil) + t + "\nend Pgs.GenCode\n"
 	}
-	b.WriteString("end Pgs.GenCode\n")
 	for _, n := range notes {
 		fmt.Fprintln(os.Stderr, "factgen: untranslatable:", n)
 	}
-	return b.String(), nil
+	return files, nil
 }
